@@ -62,6 +62,13 @@ static SliceItemPtr sliceitem() {
     std::vector<int64_t> shape({n}), strides({1});
     return std::make_shared<SliceArray64>(idx, shape, strides, k == "boolarray");
   }
+  if (k == "sarray") {    // a strided one-dimensional index array: n entries, stride (in items, may be negative), then the whole buffer
+    int64_t n = nint(), stride = nint(), bufcount = nint(); Index64 buf = rindex<int64_t>(bufcount);
+    int64_t offset = stride < 0 ? bufcount - 1 : 0;
+    Index64 idx(buf.ptr(), offset, n, kernel::lib::cpu);
+    std::vector<int64_t> shape({n}), strides({stride});
+    return std::make_shared<SliceArray64>(idx, shape, strides, false);
+  }
   if (k == "array2d") {
     int64_t r = nint(), c = nint(); Index64 idx = rindex<int64_t>(r * c);
     std::vector<int64_t> shape({r, c}), strides({c, 1});
